@@ -77,7 +77,7 @@ func TestC01Reg_StaleQCAcrossRootBump(t *testing.T) {
 	s.RunRound(steer(5, 2, D, all, func(e *bs.Env, to int) bool { return e.Kind != "PC" }))
 	pc := s.LeaderMsg(D, 5, 2, "PC")
 	if pc == nil || s.CertPower(pc.Msg.Qc) < 30 {
-		t.Fatalf("setup: D did not collect a +2/3 PROPOSE_VOTE certificate at (5,2): %s", s.Descriptor())
+		t.Fatalf("setup: D did not collect a +2/3 PROPOSE_VOTE certificate at (5,2): %s", bs.Wrap(s.Descriptor()))
 	}
 	Y := pc.Msg.Qc.BlockHash
 	for _, i := range []int{0, 1, 2} {
@@ -90,7 +90,7 @@ func TestC01Reg_StaleQCAcrossRootBump(t *testing.T) {
 	// (D is Byzantine: it does not report its lock on Y to L and stays silent in this round)
 	s.RunRound(steer(6, 0, L, []int{0, 1, 2}, func(e *bs.Env, to int) bool { return e.Kind != "CM" && e.From != D }))
 	if s.R[L].Committed == nil {
-		t.Fatalf("setup: L did not commit at (6,0): %s", s.Descriptor())
+		t.Fatalf("setup: L did not commit at (6,0): %s", bs.Wrap(s.Descriptor()))
 	}
 	X := s.R[L].Committed.BlockHash
 	if bytes.Equal(X, Y) {
@@ -127,15 +127,15 @@ func TestC01Reg_StaleQCAcrossRootBump(t *testing.T) {
 		return e.Kind == "PR" && e.Crafted && e.View.RootHeight == 6 && e.View.Round == 1
 	})
 	if pr == nil || pr.Msg.HighQc == nil || pr.Msg.HighQc.Header.RootHeight != 5 || pr.Msg.HighQc.Header.Round != 2 || !bytes.Equal(pr.Msg.Qc.BlockHash, Y) {
-		t.Fatalf("setup: D did not re-propose Y with the stale certificate: %s", s.Descriptor())
+		t.Fatalf("setup: D did not re-propose Y with the stale certificate: %s", bs.Wrap(s.Descriptor()))
 	}
 	for _, i := range honestRest {
 		if !strings.Contains(s.Descriptor(), fmt.Sprintf("D%d>%d ", pr.ID, i)) {
-			t.Fatalf("setup: the stale re-proposal m%d was not accepted for storage by replica %d: %s", pr.ID, i, s.Descriptor())
+			t.Fatalf("setup: the stale re-proposal m%d was not accepted for storage by replica %d: %s", pr.ID, i, bs.Wrap(s.Descriptor()))
 		}
 	}
 	t.Log(s.Descriptor())
 	if err := CheckHistory(s, false); err != nil {
-		t.Fatalf("VIOLATION: %v\nschedule: %s", err, s.Descriptor())
+		t.Fatalf("VIOLATION: %v\nschedule: %s", err, bs.Wrap(s.Descriptor()))
 	}
 }
